@@ -2971,7 +2971,7 @@ class _Simu(_IObserver, _params.Updatable, ABC):
 
         if dim == 2:
             # will use 1D elements
-            magnitude *= self.model.thickness
+            magnitude = magnitude * self.model.thickness  # not in place: the value is the caller's
 
         # issue #29 revealed an error in this function.
         # Both methods below yield similar (though not identical) results.
